@@ -1296,7 +1296,7 @@ class Harness:
                 twin = None
         ok, res = self.guarded(f, args, kwargs)
         after = [snap(a) for a in all_objs]
-        sig = (key, tuple(type(a).__name__ + str(np.shape(a)) for a in all_objs), ok)
+        sig = (key, tuple(type(a).__name__ + _shape(a) for a in all_objs), ok)
         ctx.case(sig, nontrivial=ok)
         ctx.corr['cases'] += 1
         may = (name in DOCUMENTED_MUTATORS or name in LEFT_MAY_CHANGE) and roles and roles[0] == 'receiver'
@@ -1616,6 +1616,17 @@ def same_value(a, b, depth=0):
         return snap(a) == snap(b)
     except Exception:
         return False
+
+
+def _shape(a):
+    if isinstance(a, np.ndarray):
+        return str(a.shape)
+    if isinstance(a, (list, tuple)):
+        return f"[{len(a)}]"
+    try:
+        return f"[{len(a)}]" if hasattr(a, '__len__') and not isinstance(a, str) else ''
+    except Exception:
+        return ''
 
 
 def _try_pickle(o):
